@@ -103,6 +103,15 @@ pub fn install_panic_hook() {
 
 pub enum Exec { Report(RunReport), HarnessPanic(String) }
 
+/// Digest of everything a run reports (used to show that a run is a function of its seed alone).
+pub fn report_hash(rep: &RunReport, tape_len: usize) -> u64 {
+    let mut h = super::tape::fnv(rep.fingerprint, &rep.evals.to_le_bytes());
+    h = super::tape::fnv(h, &rep.steps.to_le_bytes());
+    for v in &rep.violations { h = super::tape::fnv(h, v.key.as_bytes()); }
+    for f in &rep.sub_fps { h = super::tape::fnv(h, &f.to_le_bytes()); }
+    super::tape::fnv(h, &(tape_len as u64).to_le_bytes())
+}
+
 /// Run once under catch_unwind. A panic whose location is inside /repo/src is a violation of the
 /// property being checked (the shipped profile aborts on panic); a panic elsewhere is a harness error.
 pub fn exec(prop: &dyn Property, src: &mut Src, ctx: &RunCtx) -> Exec {
@@ -158,10 +167,15 @@ struct Agg {
     sim_ms: u64,
     steps: u64,
     samples: Vec<Value>,
+    trivial_sample: Option<Value>,
     known: BTreeMap<String, (u64, String)>,
     viol: BTreeMap<(u64, u64), (Vec<u64>, Vec<(usize, usize)>, Violation)>,
     harness: Vec<String>,
+    /// (run index, report hash) of the first runs of the batch, re-executed afterwards on the main thread
+    first_hashes: Vec<(u64, u64)>,
 }
+
+const SELFCHECK_RUNS: u64 = 24;
 
 pub fn slug(s: &str) -> String {
     s.chars().map(|c| if c.is_ascii_alphanumeric() { c } else { '-' }).collect::<String>()
@@ -177,7 +191,7 @@ pub fn run_batch(prop: &dyn Property, cfg: &BatchCfg) -> i32 {
     let stop = AtomicBool::new(false);
     let agg = Mutex::new(Agg {
         evals: 0, runs: 0, nontrivial_runs: 0, fps: HashSet::new(), faults: BTreeMap::new(), probes: BTreeMap::new(),
-        sim_ms: 0, steps: 0, samples: Vec::new(), known: BTreeMap::new(), viol: BTreeMap::new(), harness: Vec::new(),
+        sim_ms: 0, steps: 0, samples: Vec::new(), trivial_sample: None, known: BTreeMap::new(), viol: BTreeMap::new(), harness: Vec::new(), first_hashes: Vec::new(),
     });
     println!("check {} tier={} seed={} runs={} threads={}", prop.id(), cfg.tier.name(), cfg.seed, cfg.runs, cfg.threads);
     std::thread::scope(|s| {
@@ -198,7 +212,10 @@ pub fn run_batch(prop: &dyn Property, cfg: &BatchCfg) -> i32 {
                         for f in &rep.sub_fps { a.fps.insert(*f); }
                         for (k, v) in &rep.faults { *a.faults.entry(k).or_insert(0) += v; }
                         for (k, v) in &rep.probes { *a.probes.entry(k).or_insert(0) += v; }
-                        if let Some(sv) = rep.sample { if a.samples.len() < 4 { a.samples.push(sv); } }
+                        if let Some(sv) = rep.sample {
+                            // prefer runs that met the non-trivial condition; keep one other as a fallback
+                            if rep.nontrivial { if a.samples.len() < 4 { a.samples.push(sv); } } else if a.trivial_sample.is_none() { a.trivial_sample = Some(sv); }
+                        }
                         for v in rep.violations {
                             if findings.is_open(&v.key) {
                                 let e = a.known.entry(v.key.clone()).or_insert((0, v.msg.clone()));
@@ -221,6 +238,7 @@ pub fn run_batch(prop: &dyn Property, cfg: &BatchCfg) -> i32 {
                         Exec::Report(rep) => {
                             let unknown = rep.violations.iter().any(|v| !findings.is_open(&v.key));
                             let (mut tape, spans) = src.into_tape();
+                            if i < SELFCHECK_RUNS { agg.lock().unwrap().first_hashes.push((i, report_hash(&rep, tape.len()))); }
                             if unknown { if let Some(rt) = &rep.retarget { for (c, v) in rt { if *c < tape.len() { tape[*c] = *v; } } } }
                             if unknown { stop.store(true, Ordering::Relaxed); }
                             let derived = if unknown { vec![] } else { prop.derive(&tape, &rep, cfg.tier) };
@@ -320,6 +338,22 @@ pub fn run_batch(prop: &dyn Property, cfg: &BatchCfg) -> i32 {
             if a.probes.get(p).copied().unwrap_or(0) == 0 { probe_missing.push(p); }
         }
     }
+    if a.samples.is_empty() { if let Some(t) = a.trivial_sample.take() { a.samples.push(t); } }
+    // determinism of the harness on this very batch: the first runs are executed once more, on this thread,
+    // and must report exactly what they reported inside the batch (C20 compares processes by itself)
+    let mut same = 0u64;
+    let mut differing: Vec<u64> = Vec::new();
+    if prop.id() == "C20" { a.first_hashes.clear(); }
+    if prop.id() != "C20" {
+        a.first_hashes.sort();
+        for (i, h) in &a.first_hashes {
+            let mut src = Src::record(mix(cfg.seed, *i));
+            let ctx = RunCtx { tier: cfg.tier, trace: *i < 3, findings: &findings, index: *i };
+            let h2 = match exec(prop, &mut src, &ctx) { Exec::Report(rep) => { let (t, _) = src.into_tape(); report_hash(&rep, t.len()) } Exec::HarnessPanic(_) => 0xdead };
+            if h2 == *h { same += 1; } else { differing.push(*i); }
+        }
+        if !differing.is_empty() { eprintln!("WARNING determinism self-check: runs {:?} reported differently when repeated", differing); }
+    }
     let distinct = a.fps.len() as u64;
     let ev = json!({
         "property_id": prop.id(),
@@ -345,6 +379,7 @@ pub fn run_batch(prop: &dyn Property, cfg: &BatchCfg) -> i32 {
             "known_findings_hit": a.known.iter().map(|(k, (n, _))| (k.clone(), *n)).collect::<BTreeMap<_, _>>(),
             "violation": viol_json,
             "threads": cfg.threads,
+            "determinism_selfcheck": {"runs_repeated_on_another_thread": a.first_hashes.len(), "identical": same, "differing_run_indices": differing, "what": "report hash = (fingerprint, evaluations, scheduler steps, violation keys, sub-case fingerprints, tape length); `check selftest` compares 150 runs per property across 16 threads, 1 thread and a fresh process"},
             "stopped_early": a.runs < cfg.runs,
         },
         "assumptions": prop.assumptions(),
